@@ -29,6 +29,7 @@ type Req struct {
 	Types   []json.RawMessage `json:"types"`
 	GraceMs int               `json:"grace_ms"`
 	Dump    bool              `json:"dump"`
+	Order   []string          `json:"order"` // modes: the order in which the order queries are asked first ("down:a:b" / "up:a:b")
 }
 
 type tdef struct {
@@ -126,17 +127,41 @@ func errStr(e error) string {
 	return "error: " + e.Error()
 }
 
-func modesTable() map[string]interface{} {
+func modesTable(order []string) map[string]interface{} {
 	names := []string{"rep", "mul", "aff", "lin"}
 	ms := map[string]types.Modality{}
 	for _, n := range names {
 		ms[n] = types.StringToMode(n)
 	}
 	down, up, eq := map[string]bool{}, map[string]bool{}, map[string]bool{}
+	// the order queries are first asked in the requested order (the relation must not depend on the history of queries) ...
+	unstable := []string{}
+	for _, q := range order {
+		parts := strings.Split(q, ":")
+		if len(parts) != 3 || ms[parts[1]] == nil || ms[parts[2]] == nil {
+			continue
+		}
+		a, b := parts[1], parts[2]
+		if parts[0] == "down" {
+			down[a+">"+b] = ms[a].CanBeDownshiftedTo(ms[b])
+		} else {
+			up[a+">"+b] = ms[a].CanBeUpshiftedTo(ms[b])
+		}
+	}
+	// ... then every pair is asked (again): a changed answer is recorded
 	for _, a := range names {
 		for _, b := range names {
-			down[a+">"+b] = ms[a].CanBeDownshiftedTo(ms[b])
-			up[a+">"+b] = ms[a].CanBeUpshiftedTo(ms[b])
+			d, u := ms[a].CanBeDownshiftedTo(ms[b]), ms[a].CanBeUpshiftedTo(ms[b])
+			if old, ok := down[a+">"+b]; ok && old != d {
+				unstable = append(unstable, "down:"+a+":"+b)
+			} else if !ok {
+				down[a+">"+b] = d
+			}
+			if old, ok := up[a+">"+b]; ok && old != u {
+				unstable = append(unstable, "up:"+a+":"+b)
+			} else if !ok {
+				up[a+">"+b] = u
+			}
 			eq[a+"="+b] = ms[a].Equals(ms[b])
 		}
 	}
@@ -152,7 +177,7 @@ func modesTable() map[string]interface{} {
 		"R", "Rep", "LINEAR", "Aff", "MUL", "x", "", "linn", "re", "multi", "unset", "invalid"} {
 		sp[s] = types.StringToMode(s).String()
 	}
-	return map[string]interface{}{"down": down, "up": up, "eq": eq, "weak": w, "contr": c, "full": full, "short": short, "spell": sp}
+	return map[string]interface{}{"down": down, "up": up, "eq": eq, "weak": w, "contr": c, "full": full, "short": short, "spell": sp, "unstable": unstable}
 }
 
 func handle(rq Req) (resp map[string]interface{}) {
@@ -166,7 +191,7 @@ func handle(rq Req) (resp map[string]interface{}) {
 	case "ping":
 		resp["pong"] = true
 	case "modes":
-		resp["table"] = modesTable()
+		resp["table"] = modesTable(rq.Order)
 	case "eq":
 		// type definitions given structurally with all modes explicit; queries are pairs of types
 		defs := buildDefs(rq.Defs)
